@@ -150,7 +150,7 @@ CFG = dict(
     static=[c03_static, c03_norace],
     coq_sample={"quick": 120, "thorough": 400},
     harness_timeout={"quick": 600, "thorough": 7200},
-    rule=("one case = one history on a tree of loggers (E: derive/log operations in plan order with the bytes each derivation "
+    rule=("[12 % of the histories run against a shared destination that FAILS every k-th Write (keeps the bytes, returns an error): a failed Write of one logger may not change what parent, siblings or descendants write] one case = one history on a tree of loggers (E: derive/log operations in plan order with the bytes each derivation "
           "appended, every logged line compared byte-for-byte with an isolated replay of the node's chain in the implementation) "
           "or one With-vs-call-site comparison (W); non-trivial = distinct case lines"),
     trusted_base=[HARNESS_TB, EXTRACT_TB,
